@@ -63,7 +63,7 @@ class FutureBase {
    */
   [[nodiscard]] bool Ready() const& noexcept {
     YACLIB_ASSERT(Valid());
-    return !_core->Empty();
+    return _core->Ready();
   }
 
   void Get() & = delete;
